@@ -560,7 +560,7 @@ def hostile_options(rng):
                                             '4294967296'])
         cls.append('wrap-max')
     if rng.random() < 0.3:
-        o['--tabs'] = rng.choice([0, 1, 2, 8, 50])
+        o['--tabs'] = rng.choice([0, 1, 2, 8, 50, 65535, 100000000000, 18446744073709551615])
         cls.append('tabs')
     if rng.random() < 0.3:
         o['--line-buffer-size'] = rng.choice([0, 1, 2, 32])
@@ -642,7 +642,11 @@ def hostile_options(rng):
         o['--blame-palette'] = rng.choice(['red', 'red blue', '#010101 #020202 #030303', '1 2 3 4 5 6'])
         cls.append('blamepal')
     if rng.random() < 0.08:
-        o['--file-transformation'] = rng.choice(['s/a/b/', 's,src/,,', 's/./XX/g'])
+        o['--file-transformation'] = rng.choice(['s/a/b/', 's,src/,,', 's/./XX/g', 's→a→b→', 'sé/x/', 's', 's/', 's/a', 's/(/x/', 's/a/$9/g', 'y/a/b/', 's/a/b/gimsUx'])
+    if rng.random() < 0.05:
+        o['--relative-paths'] = True
+        o['--diff-stat-align-width'] = rng.choice([0, 1, 48, 65535, 100000000000, 18446744073709551615])
+        cls.append('relative-paths')
     if rng.random() < 0.05:
         o['--default-language'] = rng.choice(['rs', 'py', 'nonexistent', ''])
     if rng.random() < 0.05:
